@@ -56,6 +56,7 @@ SIGS = {
     'dump_manager': ['int', 'lint'],
     'load_manager': ['int'],
     'add_expr': ['spell'],
+    'add_expr_text': ['text'],
     'to_expr': ['int'],
     'to_nx': ['lint'],
     'to_dot': ['olint'],
@@ -118,6 +119,8 @@ def _conv(kind, a):
         return None if a == 'none' else _conv(kind[1:], a)
     if kind == 'lint':
         return [int(x) for x in a]
+    if kind == 'text':
+        return _impl.Text(bytes.fromhex(a[1:]).decode())
     if kind == 'spell':
         return _impl.Spellings(bytes.fromhex(x).decode() for x in a)
     if kind == 'roots':
@@ -156,7 +159,7 @@ ASIGS = {
     'ref': ['int'], 'negated': ['int'], 'len': ['int'], 'int': ['int'], 'drop': ['int'],
     'gc': [], 'reorder': ['odnn'], 'configure': ['obool'], 'set_last_len': ['oint'],
     'set_trig': ['oint'], 'copy': ['int', 'int'], 'shutdown': [],
-    'add_expr': ['spell'], 'to_expr': ['int'],
+    'add_expr': ['spell'], 'add_expr_text': ['text'], 'to_expr': ['int'],
     'assert_consistent': [],
     'json_dump': ['hroots', 'lint'], 'json_load': ['dnn', 'roots', 'jnodes', 'bool'],
 }
@@ -240,6 +243,28 @@ class Session:
         e.g. after a syntax error met in the middle of a translation)"""
         self.expect[-1] = self.expect[-1].split('\t')[0]
 
+    def lex_text(self, text):
+        """compare the token streams of a raw text"""
+        tx = _impl.Text(text)
+        try:
+            e = 'ok:' + _impl.ply_tokens(tx)
+        except Exception:  # noqa: B902
+            e = 'err:rejected'
+        self.lines.append('lex_text ' + _impl.fmt_arg(tx))
+        self.expect.append(e)
+        return e
+
+    def parse_text(self, text):
+        """compare the syntax trees of a raw text"""
+        tx = _impl.Text(text)
+        try:
+            e = 'ok:' + _impl.ply_tree(tx)
+        except Exception:  # noqa: B902
+            e = 'err:rejected'
+        self.lines.append('parse_text ' + _impl.fmt_arg(tx))
+        self.expect.append(e)
+        return e
+
     def ok(self):
         return self.expect[-1].startswith('ok:')
 
@@ -278,6 +303,13 @@ def replay_impl(lines, full=True):
         _impl.install_trigger(True)
     try:
         for line in lines:
+            if line.startswith('lex_text ') or line.startswith('parse_text '):
+                tx = _impl.Text(bytes.fromhex(line.split()[1][1:]).decode())
+                try:
+                    out.append('ok:' + (_impl.ply_tokens(tx) if line.startswith('lex_text') else _impl.ply_tree(tx)))
+                except Exception:  # noqa: B902
+                    out.append('err:rejected')
+                continue
             if line.startswith('parse '):
                 sp = _conv('spell', _parse_arg(line.split()[1]))
                 try:
